@@ -54,7 +54,7 @@ mod heap {
     fn batch_invert_scratch_wiped() {
         let mut arr: [Scalar; 5] = [Scalar::ONE; 5];
         let n: usize = kani::any();
-        kani::assume(n == 5 || n == 1 || n == 0);
+        kani::assume(n == 5);
         let b: [u8; 5] = kani::any();
         let mut i = 0;
         while i < 5 { arr[i].bytes[0] = b[i]; i += 1; }
